@@ -11,9 +11,11 @@ The real ``quimb.evo`` code is executed on symbolic Hamiltonians, states and *ti
         operators) -- a polynomial identity in the entries of V, p0 and the unit symbols
         exp(i w_k t) (Q-ID, no hypotheses);
       * dense Hamiltonian: ``eigh`` is replaced by its contract (H E = E W, E unitary); the
-        reported state p(t) is *differentiated formally* in t and  dp/dt = -i H p  (resp.
-        -i [H, p]) and p(t0) = p0 are certified modulo the contract (Q-CERT), i.e. the state is
-        the solution of the Schroedinger / von Neumann initial value problem;
+        reported state p(t) is *differentiated formally* in t and the defects  dp/dt + i H p
+        (resp. + i [H, p]) and p(t0) - p0 are shown to be explicit polynomial combinations of
+        the contract residuals H E - E W and E E^dag - 1 (a Nullstellensatz certificate written
+        out by the harness and checked as a polynomial identity), i.e. the state is the
+        solution of the Schroedinger / von Neumann initial value problem;
       * conservation of norm / trace / purity / energy modulo unitarity of the eigenvectors;
 (c) ``method='expm'``: ``expm_multiply`` is replaced by "multiply by a fresh symbolic matrix
     X[A] per distinct argument A"; goals: the generator handed over is -i H (t_new - t_old), it is
@@ -519,8 +521,33 @@ def _num_ddt(f, t, h=1e-4):
     return (-f(t + 2 * h) + 8 * f(t + h) - 8 * f(t - h) + f(t - 2 * h)) / (12 * h)
 
 
+def _protect(*arrays):
+    """keep the certificate search from solving a contract for these input symbols (H = E W E^dag would be
+    substituted into the goal, which raises its degree): they stay indeterminates"""
+    con = getattr(P.TAB, "constrained", None)
+    if con is None:
+        return
+    for a in arrays:
+        for v in P.flat_polys(a):
+            for s in v.symbols():
+                if s:
+                    con.add(s)
+                    con.add(P.TAB.partner[s])
+
+
+def _in_hyps(M):
+    """every non-zero entry of M is, up to sign, one of the hypotheses recorded by the contract stubs"""
+    have = {frozenset(h.t.items()) for _, h in P.HYP}
+    for v in P.flat_polys(M):
+        if v.t and frozenset(v.t.items()) not in have and frozenset((-v).t.items()) not in have:
+            return False
+    return True
+
+
 def _solve_dense(mk, n, kind, goal):
     H = mk.herm("H", n)
+    if mk.sym:
+        _protect(H)
     p0 = _state(mk, n, kind)
     t0, t1 = mk.scalar("t0"), mk.scalar("t1")
     isdop = kind == "dop"
@@ -530,15 +557,42 @@ def _solve_dense(mk, n, kind, goal):
 
     if mk.sym:
         evo = qe.Evolution(p0, _q(H), t0=t0, method="solve")
+        w, E = evo._ham                      # the solved system (what `compute` callbacks are documented to receive)
+        w, E = np.asarray(w), np.asarray(E)
+        Ed = ref.dag(E)
+        # residuals of the eigh contract: every entry is (up to sign / conjugation) a hypothesis of the stub
+        R = ref.matmul(H, E) - E * w[None, :]          # H E - E W
+        S = ref.matmul(E, Ed) - ref.eye(n, like=E)      # E E^dag - 1
+        mk.same("H E - E W, its adjoint and E E^dag - 1 are contract hypotheses", _in_hyps(R) and _in_hyps(ref.dag(R)) and _in_hyps(S), True)
+        iI = P.I
         if goal == "ode":
             evo.update_to(t1)
             pt = np.asarray(evo.pt)
-            mk.eq("d/dt p(t) == -i H p(t)   [-i [H, p(t)]]", _ddt(pt, t1), rhs(pt))
+            ph = _phases(mk, w, t1 - t0)
+            lhs = _ddt(pt, t1) - rhs(pt)
+            if isdop:
+                A = ref.matmul(ref.matmul(Ed, p0), E)
+                DAD = np.empty((n, n), dtype=object)
+                for a in range(n):
+                    for b in range(n):
+                        DAD[a, b] = ph[a] * A[a, b] * ph[b].conjugate()
+                combo = iI * ref.matmul(R, ref.matmul(DAD, Ed)) - iI * ref.matmul(ref.matmul(E, DAD), ref.dag(R))
+            else:
+                x = ref.matmul(Ed, p0) * ph.reshape(n, 1)
+                combo = iI * ref.matmul(R, x)
+            # explicit Nullstellensatz certificate: the defect of the ODE is a polynomial combination of contract
+            # residuals, hence zero whenever eigh honours its contract
+            mk.eq("d/dt p(t) + i H p(t) [+ i [H, p(t)]] == explicit combination of the residuals H E - E W", lhs, combo)
             mk.eq("evo.t", evo.t, t1)
         else:
             evo.update_to(t1)
             evo.update_to(t0)
-            mk.eq("p(t0) == p0", evo.pt, p0)
+            pt = np.asarray(evo.pt)
+            if isdop:
+                combo = ref.matmul(S, p0) + ref.matmul(p0, S) + ref.matmul(ref.matmul(S, p0), S)
+            else:
+                combo = ref.matmul(S, p0)
+            mk.eq("p(t0) - p0 == explicit combination of the residuals E E^dag - 1", pt - np.asarray(p0), combo)
             mk.eq("evo.t", evo.t, t0)
     else:
         def at(t):
